@@ -181,6 +181,17 @@ def gen_cases(rng, tier):
             p["objectives"] = tuple(objs)
             p["circular"] = True
             hist = tuple(h for h in hist if h != "objective") or ("assign",)
+        elif rng.random() < 0.25:
+            # the sequence supplied is NOT compatible with a hard restriction: the constructor rewrites
+            # it, and every report must keep counting against the sequence that was supplied
+            n = len(p["seq"])
+            a = rng.randint(0, n - 6)
+            w = "".join(rng.choice("ACGT") for _ in range(6))
+            extra = rng.choice([("EnforceSequence", problems.kw(location=(a, a + 6, 1), sequence=w)),
+                                ("EnforceChoice", problems.kw(location=(a, a + 6, 1), choices=(w, w[::-1]))),
+                                ("EnforceChanges", problems.kw(location=(a, a + 6, 0), reference=w[:3] + p["seq"][a + 3:a + 6]))])
+            p["constraints"] = tuple(c for c in p["constraints"]
+                                     if c[0] not in ("EnforceTranslation", "AvoidChanges", "EnforceChoice", "EnforceSequence", "EnforceChanges")) + (extra,)
         cases.append(("history", json.dumps(p, sort_keys=True), hist))
     return cases, {}
 
